@@ -377,6 +377,43 @@ func execFl(o *Out, id, line string) {
 		}
 		o.Emit(id+"r", "", "flr id="+id+"r in="+hx(in)+" sched="+strings.Join(ss, ","),
 			fmt.Sprintf("%s:%s:%s:%d", hx(got), errClass(rerr), inOff, zr.OutputOffset), "")
+		// the same reader model after Reset: a reader that has read some of an earlier stream
+		// (one of three canned ones: long enough to fill and wrap the 32 KiB window, short, corrupt)
+		// is reset onto `in` - tied to theorem C14_flate_reset_fresh
+		if len(in) > 0 && len(in) <= 3000 {
+			prevs := flCannedPrevs()
+			pi := rr.Intn(len(prevs))
+			pk := rr.Intn(8)
+			if pi == 0 && rr.Intn(2) == 0 {
+				pk = 12 + rr.Intn(8) // far enough into the long stream for the window to be full
+			}
+			psched := []int{0, 1, 5, 4096, 40000, 100, 3, 40000}
+			zr2, _ := dflate.NewReader(bytes.NewReader(prevs[pi]), nil)
+			for i := 0; i < pk; i++ {
+				if _, e := zr2.Read(make([]byte, psched[i%len(psched)])); e != nil {
+					break
+				}
+			}
+			zr2.Reset(bytes.NewReader(in))
+			var got2 []byte
+			var rerr2 error
+			for i := 0; rerr2 == nil; i++ {
+				buf := make([]byte, sched[min(i, len(sched)-1)])
+				var k int
+				k, rerr2 = zr2.Read(buf)
+				got2 = append(got2, buf[:k]...)
+			}
+			inOff2 := "-"
+			if rerr2 == io.EOF {
+				inOff2 = strconv.FormatInt(zr2.InputOffset, 10)
+			}
+			o.Count("flrr-reset")
+			o.Emit(id+"s", "", fmt.Sprintf("flrr id=%ss prev=%d pk=%d in=%s sched=%s", id, pi, pk, hx(in), strings.Join(ss, ",")),
+				fmt.Sprintf("%s:%s:%s:%d", hx(got2), errClass(rerr2), inOff2, zr2.OutputOffset), "")
+			if errClass(rerr2) != errClass(rerr) || !bytes.Equal(got2, got) {
+				o.Violate("C14", fmt.Sprintf("flate.Reader after Reset (earlier stream %d, %d reads) differs from a new one: %s/%d bytes vs %s/%d bytes", pi, pk, errClass(rerr2), len(got2), errClass(rerr), len(got)), "flate-reset-differs", line)
+			}
+		}
 		rcls := errClass(rerr)
 		if rcls == "eof" {
 			rcls = "nil"
@@ -442,6 +479,39 @@ func execFl(o *Out, id, line string) {
 }
 
 // dsnetInflateAllOff is dsnetInflateAll reading from a Peek-capable source.
+var flPrevs [][]byte
+
+// flCannedPrevs: the earlier streams of the reset scenarios (kind flrr); the Lean driver rebuilds
+// them from the same recipe (`Compress.Drv.flCannedPrevs`): stored blocks only, so that both
+// sides construct identical bytes without a compressor.
+func flCannedPrevs() [][]byte {
+	if flPrevs != nil {
+		return flPrevs
+	}
+	stored := func(final bool, d []byte) []byte {
+		h := byte(0)
+		if final {
+			h = 1
+		}
+		n := len(d)
+		return append([]byte{h, byte(n), byte(n >> 8), byte(^n), byte(^n >> 8)}, d...)
+	}
+	// 0: three stored blocks of 20000 bytes (byte i of block b = (7*i+b) mod 251): fills and wraps the window
+	var long []byte
+	for b := 0; b < 3; b++ {
+		d := make([]byte, 20000)
+		for i := range d {
+			d[i] = byte((7*i + b) % 251)
+		}
+		long = append(long, stored(b == 2, d)...)
+	}
+	// 1: one short final stored block; 2: a stored block followed by a reserved block type
+	short := stored(true, []byte("hello, reset"))
+	bad := append(stored(false, []byte("abcdefgh")), 0x07)
+	flPrevs = [][]byte{long, short, bad}
+	return flPrevs
+}
+
 func dsnetInflateAllOff(b []byte) ([]byte, int, error) { return dsnetInflateAll(b) }
 
 func genFl(r *Rand, tier string, emit func(string)) {
